@@ -27,6 +27,11 @@ const UndoDDL = `CREATE TABLE undo_log (
 // Lab is one proxied database plus its coordinator (one per process: the client keeps its
 // configuration and registries in package globals).
 type Lab struct {
+	// Prelude, if set, runs first inside every explicit local transaction the lab opens (ExecSQL, RunBranch):
+	// what an application did in the transaction before the statements under observation - for example a
+	// statement that failed and was handled
+	Prelude func(ctx context.Context, tx *sql.Tx)
+
 	Srv   *memsql.Server
 	DB    *sql.DB // AT proxy over memsql
 	Bare  *sql.DB // memsql without the proxy
@@ -191,6 +196,9 @@ func (l *Lab) ExecSQL(ctx context.Context, q string, args []interface{}, explici
 	if err != nil {
 		return err
 	}
+	if l.Prelude != nil {
+		l.Prelude(ctx, tx)
+	}
 	defer func() {
 		// what a careful application does (defer tx.Rollback()): a panic out of the driver must not
 		// leave the transaction open
@@ -309,12 +317,8 @@ func (j *jimg) rows(s *Schema, nkeys int) map[int]Row {
 		}
 		row := Row{-2, -2}
 		if w1, ok := m["w1"].(int64); ok {
-			w := int(w1 - 10)
-			want := s.W2(w)
 			got, has := m["w2"]
-			if has && ((want == nil && got == nil) || (want != nil && got == want)) {
-				row.W = w
-			}
+			row.W = s.WOf(w1, got, has)
 		}
 		if zt, has := m["z_txt"]; has && s.Zoo && fmt.Sprint(zt) != s.ZTxt(k) {
 			row.W = -2 // the TEXT column of the image is not this row's text
@@ -341,6 +345,9 @@ func (l *Lab) RunBranch(ctx context.Context, s *Schema, stmts []Stmt, style Styl
 	tx, err := l.DB.BeginTx(ctx, nil)
 	if err != nil {
 		return err
+	}
+	if l.Prelude != nil {
+		l.Prelude(ctx, tx)
 	}
 	defer func() {
 		if p := recover(); p != nil {
